@@ -136,6 +136,8 @@ pub fn run_writer(prog: &Value, dev: &Dev, t: &mut TraceOut) -> WriteOutcome {
         is_ok(res)
     };
     let stop_on_err = prog["stop_on_err"].as_bool().unwrap_or(false);
+    // bytes of text handed to the writer that the XML must contain (a lower bound of the XML length, counted mechanically)
+    let mut text_lb: u64 = 0;
     for step in steps.iter().skip(1) {
         call += 1;
         dev.set_call(call);
@@ -143,7 +145,16 @@ pub fn run_writer(prog: &Value, dev: &Dev, t: &mut TraceOut) -> WriteOutcome {
             break;
         }
         match step["op"].as_str().unwrap_or("") {
+            "coord" if step["v"].is_object() => {
+                // a long text given as a repeated unit; recorded in the same compact form
+                let (unit, n) = (strv(&step["v"]["rep"]), step["v"]["n"].as_u64().unwrap_or(0) as usize);
+                let text = unit.repeat(n);
+                text_lb = text.len() as u64;
+                w.set_coordinate_metadata(Some(text));
+                t.ev(json!({"ev":"w_coord","v":{"some": format!("<{n} x {unit}>")},"res":ok(json!(0))}));
+            }
             "coord" => {
+                text_lb = ostrv(&step["v"]).map(|s| s.len() as u64).unwrap_or(0);
                 w.set_coordinate_metadata(ostrv(&step["v"]));
                 t.ev(json!({"ev":"w_coord","v":ostr(&ostrv(&step["v"])),"res":ok(json!(0))}));
             }
@@ -418,7 +429,7 @@ pub fn run_writer(prog: &Value, dev: &Dev, t: &mut TraceOut) -> WriteOutcome {
                         match String::from_utf8(x) { Ok(s) => Ok(s), Err(_) => Error::invalid("splice produced invalid UTF-8") }
                     }));
                     let res = res_unit(r);
-                    t.ev(json!({"ev":"w_finalize","custom": true,"res":res}));
+                    t.ev(json!({"ev":"w_finalize","custom": true,"text_lb":text_lb,"res":res}));
                     if note(&res, &mut out) {
                         out.readable = true;
                     }
@@ -435,7 +446,7 @@ pub fn run_writer(prog: &Value, dev: &Dev, t: &mut TraceOut) -> WriteOutcome {
                     _ => w.finalize(),
                 });
                 let res = res_unit(r);
-                t.ev(json!({"ev":"w_finalize","custom": ins.is_some(),"res":res}));
+                t.ev(json!({"ev":"w_finalize","custom": ins.is_some(),"text_lb":text_lb,"res":res}));
                 if note(&res, &mut out) {
                     out.readable = true;
                 }
@@ -725,6 +736,12 @@ pub fn run_programs(progs: &str, from: Option<usize>, out: &str) -> std::io::Res
             continue;
         }
         let img = dev.snapshot();
+        if prog["big"] == true {
+            // a very large file: only whether the library can open what it wrote (the image is not recorded)
+            let r = catch(|| E57Reader::new(Dev::from_bytes(img.clone())).map(|_| ()));
+            t.ev(json!({"ev":"big_readback","size":img.len(),"res":res_unit(r)}));
+            continue;
+        }
         t.ev(json!({"ev":"final","bytes":jbytes(&img)}));
         let ops = prog["read"].as_array().cloned().unwrap_or_else(|| vec![json!({"op":"report"}), json!({"op":"raw_all"}), json!({"op":"blobs"}), json!({"op":"xml"})]);
         let mut ops2 = Vec::new();
